@@ -183,7 +183,7 @@ func c14Expiry(c *vk.Ctx, r *rand.Rand) bool {
 				return
 			}
 			defer cl.Close()
-			scen := pick(cr, []string{"non-dns-burst-then-idle", "single-non-dns", "dns-then-non-dns", "fast-close", "no-fast-close/reply-from-other-port-first", "no-fast-close/two-queries", "no-fast-close/non-dns-first", "dns-reply-races-second-datagram", "first-write-fails"})
+			scen := pick(cr, []string{"non-dns-burst-then-idle", "single-non-dns", "dns-then-non-dns", "fast-close", "no-fast-close/reply-from-other-port-first", "no-fast-close/two-queries", "no-fast-close/non-dns-first", "dns-reply-races-second-datagram", "first-write-fails", "reply-write-to-client-fails"})
 			c.Progress("C14 expiry client=%d scenario=%s timeout=%s", ci, scen, natTimeout)
 			var sends []c14Send
 			var sock *NatSock
@@ -270,6 +270,21 @@ func c14Expiry(c *vk.Ctx, r *rand.Rand) bool {
 					}
 				}
 				myDNS.SetHold(false)
+			case "reply-write-to-client-fails":
+				// one relayed answer cannot be written to the client (injected); the association lives on
+				mine := cl.Addr.String()
+				var failed atomic.Bool
+				w.rig.Sock.SetFailWrite(func(dst net.Addr, n int) error {
+					if dst.String() == mine && failed.CompareAndSwap(false, true) {
+						return errors.New("injected: write to client fails")
+					}
+					return nil
+				})
+				ok = send(w.other, 1)
+				time.Sleep(30 * time.Millisecond)
+				if ok && failed.Load() {
+					c.Count("reply_write_failures_injected", 1)
+				}
 			case "first-write-fails":
 				// the very first forward of a new association fails in the socket write
 				w.rig.Nat.mu.Lock()
